@@ -59,6 +59,29 @@ def run(ctx):
         if c["set"] not in seen_sets:
             seen_sets.append(c["set"])
     extra_cases = []
+    # files larger than 16 KiB: the 16k hash covers only the head, so where the later slices lie must be checked by other means
+    bigsets = []
+    for S in ((4096,) if ctx.tier != "thorough" else (4096, 2048, 8192)):
+        big = L.gen_content(rng, "random", 16384 + 2 * S + rng.choice([0, 100]))
+        twin = big[:16384] + L.gen_content(rng, "random", len(big) - 16384)
+        bs = P.PSet({"big.bin": big, "twin.bin": twin, "s": b"small"}, S, 2, g=2, tag="big")
+        bigsets.append(bs)
+    P.create_all(ctx, vh, model, bigsets)
+    for bs in bigsets:
+        if bs.created is None:
+            report("Create failed on a set with files above 16 KiB", {"lines": [bs.create_line("mem")], "class": {"pattern": "big-create"}})
+            continue
+        S = bs.slice
+        k = 16384 // S
+        for n in ("big.bin", "twin.bin"):
+            d = bs.created[bs.paths[n]]
+            nd = d[:k * S] + d[(k + 1) * S:(k + 2) * S] + d[k * S:(k + 1) * S] + d[(k + 2) * S:]
+            fs = dict(bs.created); fs[bs.paths[n]] = nd
+            extra_cases.append({"set": bs, "desc": "high-slices-exchanged:" + n, "fs": fs, "vline": L.line_verify("p2", "mem", bs.index, 1, fs)})
+            nd = d[:k * S] + d[(k + 1) * S:(k + 2) * S] + d[(k + 1) * S:]
+            fs = dict(bs.created); fs[bs.paths[n]] = nd
+            extra_cases.append({"set": bs, "desc": "high-slice-duplicated:" + n, "fs": fs, "vline": L.line_verify("p2", "mem", bs.index, 1, fs)})
+        seen_sets.append(bs)
     for ps in seen_sets:
         if ps.created is None or getattr(ps, "rowswap", False):
             continue
